@@ -650,7 +650,7 @@ FLOORS = ["tick", "accept", "connected", "connected.sendfail", "deliver.data", "
           "guard.deliver", "guard.send.disconnects", "guard.outgoing-connected", "guard.drop.reports-disconnect",
           "guard.connerr.after-disconnect-state=0", "guard.connerr.after-disconnect-state=1",
           "guard.recv.after-disconnect-state=1", "guard.fd-reuse.stale-disconnect", "deliver.fragment",
-          "deliver.continues-partial-frame", "send.big", "send.from_state=1", "accept_error.ECONNABORTED", "stranger.arb.dict", "stranger.arb.list",
+          "deliver.continues-partial-frame", "send.big", "send.from_state=1", "connerr.mid-frame-on-dialled-object", "accept_error.ECONNABORTED", "stranger.arb.dict", "stranger.arb.list",
           "stranger.arb.NoneType", "heal"]
 
 
